@@ -6,7 +6,8 @@
 (* ONE real Lattice/Buckshot/Sparsity run made by harness/check_C09.py:    *)
 (*   New      kind, api ("class" or "wrapper"), mode, n = members          *)
 (*            requested (product of the bins / number of points), dim,     *)
-(*            strict (strict ranges set), limG/limE (-1 = none), and for   *)
+(*            strict (strict ranges set), limG/limE (-1 = none), inst (the *)
+(*            nested solver is a configured instance, not a class), for    *)
 (*            lattices the bin layout and the bounds in units of 1/16      *)
 (*   Begin    the ensemble's map was called with `items` work items        *)
 (*   Item     work item i completed (events are in COMPLETION order); m is *)
@@ -63,16 +64,23 @@ TraceBegin ==
      IN Probe(cl) /\ AllTrue(cl)
   /\ Begin
 
+Inst == "inst" \in DOMAIN Cfg /\ Cfg.inst
+
 (* the member of work item i as recorded, judged against the ensemble's configuration *)
 MemberClauses(i, m) == <<
-  <<"C09:member-counter-equals-its-real-calls", m.evals = m.real>>,
+  \* (a configured instance counts the calls of the objective it was handed -- the ensemble's DECORATED cost, whose
+  \*  out-of-range branch answers inf without calling the user's function; the clause is named apart for that layout)
+  <<IF Inst /\ Cfg.strict THEN "C09:member-counter-equals-its-real-calls[configured-instance+strict-ranges]"
+                          ELSE "C09:member-counter-equals-its-real-calls", m.evals = m.real>>,
   <<"C09:member-started-inside-the-strict-ranges", Cfg.strict => \A d \in DOMAIN m.scls : m.scls[d] \in {1, 2, 3}>>,
   <<"C09:lattice-member-starts-at-centre-of-its-own-cell",
         (Cfg.kind = "lattice" /\ Cfg.exact) => m.s16 = G!LatticePts(Cfg.lo16, Cfg.hi16, Cfg.layout)[i]>>,
   <<"C09:member-first-evaluates-its-starting-point", m.first # 0>>,
-  <<"C09:member-subject-to-ensemble-bounds", m.cfgS /\ (Cfg.strict => m.oob = 0)>>,
-  <<"C09:member-subject-to-ensemble-constraints", m.cfgC /\ m.cviol = 0>>,
-  <<"C09:member-subject-to-ensemble-penalty", m.cfgP /\ m.penok>>,
+  \* a configured INSTANCE (Cfg.inst) is not re-configured: the settings reach it inside the objective it is handed,
+  \* so only the observable half of each clause applies (where the cost was called, which energy was reported)
+  <<"C09:member-subject-to-ensemble-bounds", (Inst \/ m.cfgS) /\ (Cfg.strict => m.oob = 0)>>,
+  <<"C09:member-subject-to-ensemble-constraints", (Inst \/ m.cfgC) /\ m.cviol = 0>>,
+  <<"C09:member-subject-to-ensemble-penalty", (Inst \/ m.cfgP) /\ m.penok>>,
   <<"C09:member-subject-to-ensemble-limits",
         /\ m.cfgL
         /\ (Cfg.limG # -1 => m.gens <= Cfg.limG + 1)      \* gens = steps taken = generations + 1
